@@ -30,5 +30,6 @@ for v in "${variants[@]}"; do
     exit 2
   fi
   cp -f target/verif/av "$HERE/bin/av-$v.tmp" && mv -f "$HERE/bin/av-$v.tmp" "$HERE/bin/av-$v"
+  cp -f target/verif/avs "$HERE/bin/avs-$v.tmp" && mv -f "$HERE/bin/avs-$v.tmp" "$HERE/bin/avs-$v"
 done
 exit 0
